@@ -1,13 +1,156 @@
 /-
-C05 — isotherm identity is determined by content, and only by content (placeholder; theorems follow).
+C05 — isotherm identity is determined by content, and only by content.
+
+Statements are about the executable model `PgVerif.Model.Json`: `canon` (the key-sorted dictionary and the payload, i.e. what
+`json.dumps(raw_dict, sort_keys=True)` serialises), `sortKeys`/`insertSorted` (the key sort) and `isoId H` (the identifier with an
+uninterpreted hash `H`).  Keys are compared with String's lexicographic order (`Mathlib.Data.String.Basic` supplies the proof that it
+is a linear order; its `<` is the core `String` `<` used by the model).
 -/
+import Mathlib.Tactic
+import Mathlib.Data.String.Basic
+import Mathlib.Data.List.Sort
 import PgVerif.Model.Json
 
 namespace PgVerif.C05
 open PgVerif.Model.Json
 
-/-- equal canonical forms give equal identifiers, whatever the hash -/
+/-- the test of `insertSorted` is `≤` on keys (String's lexicographic order) -/
+private lemma test_iff (a b : String) : (a < b || a == b) = true ↔ a ≤ b := by
+  rw [Bool.or_eq_true, decide_eq_true_iff, beq_iff_eq, le_iff_lt_or_eq]
+
+lemma insertSorted_perm (kv : String × MVal) (d : Dict) : (insertSorted kv d).Perm (kv :: d) := by
+  induction d with
+  | nil => exact List.Perm.refl _
+  | cons h t ih =>
+    unfold insertSorted
+    split_ifs
+    · exact List.Perm.refl _
+    · exact (List.Perm.cons h ih).trans (List.Perm.swap kv h t)
+
+lemma insertSorted_sorted (kv : String × MVal) (d : Dict) (hd : d.Pairwise (fun a b => a.1 ≤ b.1)) :
+    (insertSorted kv d).Pairwise (fun a b => a.1 ≤ b.1) := by
+  induction d with
+  | nil => simp [insertSorted]
+  | cons h t ih =>
+    rw [List.pairwise_cons] at hd
+    unfold insertSorted
+    split_ifs with hc
+    · rw [test_iff] at hc
+      rw [List.pairwise_cons]
+      refine ⟨?_, List.pairwise_cons.2 hd⟩
+      intro b hb
+      rcases List.mem_cons.1 hb with rfl | hb
+      · exact hc
+      · exact le_trans hc (hd.1 b hb)
+    · rw [test_iff, not_le] at hc
+      rw [List.pairwise_cons]
+      refine ⟨?_, ih hd.2⟩
+      intro b hb
+      rcases List.mem_cons.1 ((insertSorted_perm kv t).subset hb) with rfl | hb
+      · exact hc.le
+      · exact hd.1 b hb
+
+theorem sortKeys_perm (d : Dict) : (sortKeys d).Perm d := by
+  induction d with
+  | nil => exact List.Perm.refl _
+  | cons h t ih =>
+    unfold sortKeys
+    exact (insertSorted_perm h (sortKeys t)).trans (List.Perm.cons h ih)
+
+theorem sortKeys_sorted (d : Dict) : (sortKeys d).Pairwise (fun a b => a.1 ≤ b.1) := by
+  induction d with
+  | nil => exact List.Pairwise.nil
+  | cons h t ih => unfold sortKeys; exact insertSorted_sorted h _ ih
+
+/-- with pairwise distinct keys the sorted dictionary is STRICTLY increasing in its keys -/
+theorem sortKeys_sorted_strict (d : Dict) (hn : (d.map (·.1)).Nodup) : (sortKeys d).Pairwise (fun a b => a.1 < b.1) := by
+  have hn' : ((sortKeys d).map (·.1)).Nodup := ((sortKeys_perm d).map _).nodup_iff.2 hn
+  have hne : (sortKeys d).Pairwise (fun a b => a.1 ≠ b.1) := by
+    rw [List.Nodup, List.pairwise_map] at hn'
+    exact hn'
+  exact ((sortKeys_sorted d).and hne).imp (fun h => lt_of_le_of_ne h.1 h.2)
+
+/-- the canonical form does not depend on the order in which the metadata was given -/
+theorem canon_perm_invariant (d₁ d₂ : Dict) (hp : d₁.Perm d₂) (hn : (d₁.map (·.1)).Nodup) : sortKeys d₁ = sortKeys d₂ := by
+  have hn₂ : (d₂.map (·.1)).Nodup := (hp.map _).nodup_iff.1 hn
+  refine List.Perm.eq_of_pairwise (le := fun a b => a.1 < b.1) ?_ (sortKeys_sorted_strict d₁ hn)
+    (sortKeys_sorted_strict d₂ hn₂) (((sortKeys_perm d₁).trans hp).trans (sortKeys_perm d₂).symm)
+  intro a b _ _ hab hba
+  exact absurd hab (lt_asymm hba)
+
 theorem id_of_equal_canon {ι : Type} (H : Dict × Payload → ι) (a b : Iso) (h : canon a = canon b) : isoId H a = isoId H b := by
   unfold isoId; rw [h]
+
+/-- the construction route is not an input of the identifier -/
+theorem id_of_equal_content {ι : Type} (H : Dict × Payload → ι) (a b : Iso) (h : a = b) : isoId H a = isoId H b := by
+  rw [h]
+
+/-- ... nor is the order of the metadata -/
+theorem id_of_permuted_content {ι : Type} (H : Dict × Payload → ι) (a b : Iso) (hp : a.core.Perm b.core)
+    (hn : (a.core.map (·.1)).Nodup) (hpay : a.payload = b.payload) : isoId H a = isoId H b := by
+  apply id_of_equal_canon
+  unfold canon
+  rw [canon_perm_invariant _ _ hp hn, hpay]
+
+/-- nothing is ignored: equal canonical forms force equal content (the dictionaries up to order, the payload exactly) -/
+theorem canon_injective (a b : Iso) (h : canon a = canon b) : a.core.Perm b.core ∧ a.payload = b.payload := by
+  unfold canon at h
+  rw [Prod.mk.injEq] at h
+  refine ⟨?_, h.2⟩
+  exact ((sortKeys_perm a.core).symm.trans (h.1 ▸ List.Perm.refl _)).trans (sortKeys_perm b.core)
+
+/-- for dictionaries with distinct keys: same canonical form iff same content -/
+theorem canon_eq_iff (a b : Iso) (hn : (a.core.map (·.1)).Nodup) :
+    canon a = canon b ↔ a.core.Perm b.core ∧ a.payload = b.payload := by
+  refine ⟨canon_injective a b, fun h => ?_⟩
+  unfold canon
+  rw [canon_perm_invariant _ _ h.1 hn, h.2]
+
+/-- changing any metadata value, label, datum, branch mark or model parameter changes the identifier, unless the hash collides -/
+theorem id_differs_of_content_differs {ι : Type} (H : Dict × Payload → ι) (hH : Function.Injective H) (a b : Iso)
+    (h : ¬ (a.core.Perm b.core ∧ a.payload = b.payload)) : isoId H a ≠ isoId H b := by
+  intro he
+  exact h (canon_injective a b (hH he))
+
+/-- with an injective hash and distinct keys: same identifier iff same content -/
+theorem id_eq_iff {ι : Type} (H : Dict × Payload → ι) (hH : Function.Injective H) (a b : Iso)
+    (hn : (a.core.map (·.1)).Nodup) : isoId H a = isoId H b ↔ a.core.Perm b.core ∧ a.payload = b.payload := by
+  unfold isoId
+  rw [hH.eq_iff, canon_eq_iff a b hn]
+
+/-! ### `canon_ignores_nothing`: concrete pairs differing in one place -/
+
+/-- one branch mark -/
+theorem canon_ignores_nothing_branch :
+    canon ⟨[("material", .scalar (.str "m")), ("adsorbate", .scalar (.str "N2"))],
+            .points [⟨.int 1, .int 10, 0, []⟩, ⟨.int 2, .int 20, 0, []⟩]⟩ ≠
+    canon ⟨[("material", .scalar (.str "m")), ("adsorbate", .scalar (.str "N2"))],
+            .points [⟨.int 1, .int 10, 0, []⟩, ⟨.int 2, .int 20, 1, []⟩]⟩ := by decide
+
+/-- one metadata value -/
+theorem canon_ignores_nothing_metadata :
+    canon ⟨[("material", .scalar (.str "m")), ("user", .scalar (.str "A"))], .none⟩ ≠
+    canon ⟨[("material", .scalar (.str "m")), ("user", .scalar (.str "B"))], .none⟩ := by decide
+
+/-- one datum -/
+theorem canon_ignores_nothing_datum :
+    canon ⟨[("material", .scalar (.str "m"))], .points [⟨.int 1, .num "10.00000001", 0, []⟩]⟩ ≠
+    canon ⟨[("material", .scalar (.str "m"))], .points [⟨.int 1, .num "10.00000002", 0, []⟩]⟩ := by decide
+
+/-- one model parameter -/
+theorem canon_ignores_nothing_param :
+    canon ⟨[("material", .scalar (.str "m"))], .model ⟨"Henry", .int 0, [("K", .int 2)], (.int 0, .int 1), (.int 0, .int 2)⟩⟩ ≠
+    canon ⟨[("material", .scalar (.str "m"))], .model ⟨"Henry", .int 0, [("K", .int 3)], (.int 0, .int 1), (.int 0, .int 2)⟩⟩ := by
+  decide
+
+/-- the guard of `canon_perm_invariant` is needed: with a repeated key (impossible for a python dict) the order shows -/
+theorem canon_perm_needs_distinct_keys :
+    sortKeys [("a", .scalar (.int 1)), ("a", .scalar (.int 2))] ≠ sortKeys [("a", .scalar (.int 2)), ("a", .scalar (.int 1))] := by
+  decide
+
+/-- the order of the metadata IS ignored (and nothing else) -/
+theorem canon_order_example :
+    canon ⟨[("material", .scalar (.str "m")), ("adsorbate", .scalar (.str "N2"))], .none⟩ =
+    canon ⟨[("adsorbate", .scalar (.str "N2")), ("material", .scalar (.str "m"))], .none⟩ := by decide
 
 end PgVerif.C05
